@@ -259,5 +259,10 @@ def with_duplicate_action(rng, t):
         return False
     if has_own(sub, n["p"]):
         return None
-    n["a"].append([new_label, copy.deepcopy(sub)])
+    if rng.random() < 0.5:
+        # every action of the node a copy of one of them: all regrets there are exactly zero in every iteration, so the
+        # "no positive regret" fallback of regret matching decides the strategy at this infoset
+        n["a"] = [[lab, copy.deepcopy(sub)] for lab, _ in n["a"]]
+    else:
+        n["a"].append([new_label, copy.deepcopy(sub)])
     return t2
